@@ -942,7 +942,8 @@ func (p *queryPlan) projectAndGroupBy() error {
 		// Update sorting configuration.
 		found := false
 		for _, g := range p.stm.GroupByBindings() {
-			if prj.Binding == g {
+			// GROUP BY lists output names: the alias when there is one.
+			if prj.OP == lexer.ItemError && (prj.Alias == g || (prj.Alias == "" && prj.Binding == g)) {
 				found = true
 			}
 		}
